@@ -4,7 +4,7 @@
    element types and every argument list (by case analysis over the argument shapes and induction over the
    lists, not by evaluation on samples).  Then the headline theorems of C20.v restated for [run_ctor]. *)
 From Coq Require Import String.
-From Verif Require Import Base Sorter Value Seq Coll Pool Params SetProofs AssocProofs Facade FacadeProofs ModuleLang ModuleSem GenModule.
+From Verif Require Import Base Sorter Value Seq Coll Pool PoolRun Params SetProofs AssocProofs Facade FacadeProofs ModuleLang ModuleSem GenModule.
 Open Scope Z_scope.
 Open Scope list_scope.
 
@@ -371,3 +371,152 @@ Proof.
   - destruct H as (scr' & L' & E). rewrite E. cbv beta iota. apply (assoc_post args tk tv _ (key, value) scr' L').
   - rewrite H. reflexivity.
 Qed.
+
+(* ====================================================================================================== *)
+(* the headline theorems of C20.v restated for the REGENERATED constructors                                 *)
+(* ====================================================================================================== *)
+Definition gen_of (k : fkind) : gen_ctor :=
+  match k with
+  | FAssociation => gen_Association | FArray => gen_Array | FCatalog => gen_Catalog | FList => gen_List
+  | FMap => gen_Map | FQueue => gen_Queue | FSet => gen_Set | FStack => gen_Stack
+  end.
+Definition proved_kind (k : fkind) : Prop := k = FStack \/ k = FQueue.
+
+Lemma with_notation_ok : forall (P : arg -> Prop) pos args, P ANotation -> Forall P args -> Forall P (with_notation pos args).
+Proof.
+  intros P pos args Hn F. destruct pos as [|[|pos]]; cbn [with_notation]; [exact F|constructor; assumption|].
+  apply Forall_app. split; [exact F|constructor; [exact Hn|constructor]].
+Qed.
+
+Theorem gen_is_the_model : forall k tk tv args, proved_kind k -> Forall size_ok args ->
+  run_ctor (gen_of k) tk tv args = out_map FO (facade k tk tv args).
+Proof.
+  intros k tk tv args [-> | ->] F; [apply gen_Stack_is_the_model|apply gen_Queue_is_the_model]; exact F.
+Qed.
+
+Theorem C20_gen_notation_is_transparent : forall k tk tv pos args, proved_kind k -> Forall size_ok args ->
+  run_ctor (gen_of k) tk tv (with_notation pos args) = run_ctor (gen_of k) tk tv args.
+Proof.
+  intros k tk tv pos args Hk F. rewrite !(gen_is_the_model k tk tv _ Hk); [|exact F|apply with_notation_ok; [exact I|exact F]].
+  rewrite facade_notation_transparent. reflexivity.
+Qed.
+
+Theorem C20_gen_association_notation_is_transparent : forall tk tv pos args, Forall assoc_arg args ->
+  run_ctor gen_Association tk tv (with_notation pos args) = run_ctor gen_Association tk tv args.
+Proof.
+  intros tk tv pos args F. rewrite !gen_Association_is_the_model; [|exact F|apply with_notation_ok; [exact I|exact F]].
+  rewrite facade_notation_transparent. reflexivity.
+Qed.
+
+Theorem C20_gen_association_key_value : forall tk tv k v pos, has_ty tk k = true -> has_ty tv v = true ->
+  run_ctor gen_Association tk tv (with_notation pos [AVal k; AVal v]) = Ret (FO (FAssoc k v)).
+Proof.
+  intros tk tv k v pos Hk Hv. rewrite gen_Association_is_the_model.
+  - rewrite (assoc_kv tk tv k v pos Hk Hv). reflexivity.
+  - apply with_notation_ok; [exact I|]. repeat constructor.
+Qed.
+
+Theorem C20_gen_no_data_is_Make : forall k tk tv, proved_kind k ->
+  run_ctor (gen_of k) tk tv [] = out_map FO (out_map FObj (class_ctor k tv CMake)).
+Proof.
+  intros k tk tv Hk. rewrite (gen_is_the_model k tk tv [] Hk (Forall_nil _)).
+  destruct Hk as [-> | ->]; reflexivity.
+Qed.
+
+Theorem C20_gen_size_or_capacity : forall k tk tv n pos (as_int : bool), proved_kind k -> 0 <= n ->
+  run_ctor (gen_of k) tk tv (with_notation pos [if as_int then AInt n else AUint n]) =
+  out_map FO (out_map FObj (class_ctor k tv (CSize (Z.to_nat n)))).
+Proof.
+  intros k tk tv n pos as_int Hk Hn. rewrite (gen_is_the_model k tk tv _ Hk).
+  - rewrite facade_agrees_size; [reflexivity| |exact Hn]. destruct Hk as [-> | ->]; unfold is_sized_kind; auto.
+  - apply with_notation_ok; [exact I|]. constructor; [destruct as_int; exact Hn|constructor].
+Qed.
+
+Theorem C20_gen_go_array : forall k tk tv vs pos, proved_kind k ->
+  run_ctor (gen_of k) tk tv (with_notation pos [ASlice vs]) = out_map FO (out_map FObj (class_ctor k tv (CFromArray vs))).
+Proof.
+  intros k tk tv vs pos Hk. rewrite (gen_is_the_model k tk tv _ Hk).
+  - rewrite facade_agrees_slice; [reflexivity|]. destruct Hk as [-> | ->]; unfold is_seq_kind; auto.
+  - apply with_notation_ok; [exact I|]. repeat constructor.
+Qed.
+
+Theorem C20_gen_sequence : forall k tk tv sk vs pos, proved_kind k ->
+  run_ctor (gen_of k) tk tv (with_notation pos [ASeq sk vs]) = out_map FO (out_map FObj (class_ctor k tv (CFromSeq vs))).
+Proof.
+  intros k tk tv sk vs pos Hk. rewrite (gen_is_the_model k tk tv _ Hk).
+  - rewrite facade_agrees_sequence; [reflexivity|]. destruct Hk as [-> | ->]; unfold is_seq_kind; auto.
+  - apply with_notation_ok; [exact I|]. repeat constructor.
+Qed.
+
+(* the source form: what the parser itself builds from the items (kind, contents, order, capacity) *)
+Theorem C20_gen_source_is_the_class_constructor_on_the_parsed_items : forall k tk tv text sk items pos,
+  proved_kind k -> text <> [] -> sk <> KSlice -> convert_all tv items = Some items ->
+  run_ctor (gen_of k) tk tv (with_notation pos [AString text (PColl (VSeq sk items))]) =
+  out_map FO (out_map FObj (class_ctor k tv (CFromSeq items))).
+Proof.
+  intros k tk tv text sk items pos Hk Ht Hsk Hc. rewrite (gen_is_the_model k tk tv _ Hk).
+  - rewrite facade_source_sequence; [reflexivity| |exact Ht|exact Hsk|exact Hc]. destruct Hk as [-> | ->]; unfold is_seq_kind; auto.
+  - apply with_notation_ok; [exact I|]. repeat constructor.
+Qed.
+
+(* ---------- the remaining constructors: not yet proved for every argument list ---------- *)
+(* Array, Catalog, List, Map, Set: the regenerated constructor and the model are compared BY EVALUATION on a
+   fixed family of argument lists (every argument form alone, with a notation before / after, pairs of forms in
+   both orders, sources of every parsed kind with a well- and an ill-typed item) — a weaker obligation than the
+   theorems above, kept until their simulation proofs are written. *)
+Definition sv (z : Z) : val := VInt 64 z.
+Definition sample_forms : list arg :=
+  [ANotation; AInt 0; AInt 3; AUint 0; AUint 2; ASlice []; ASlice [sv 2; sv 1; sv 2]; ASeq KList []; ASeq KSet [sv 1; sv 5];
+   AGoMap [] []; AGoMap [(sv 1, sv 10); (sv 2, sv 20)] [sv 2; sv 1]; AAssocSlice []; AAssocSlice [(sv 1, sv 10); (sv 1, sv 11)];
+   AAssocSeq [(sv 3, sv 30); (sv 1, sv 10)] []; ACollator 1; ACollator 0; AVal (sv 7); AOther;
+   AString [] PPanic; AString [65] PPanic; AString [65] (PColl (VSeq KList [sv 3; sv 1; sv 3]));
+   AString [65] (PColl (VSeq KSet [sv 1; VStr [66]])); AString [65] (PColl (VSeq KSlice [sv 1]));
+   AString [65] (PColl (VMapping MCatalog [sv 1; sv 2; sv 1] [sv 10; sv 20; sv 30]));
+   AString [65] (PColl (VMapping MMap [sv 1; VNil] [sv 10; sv 20])); AString [65] (PColl (VSeq KQueue [VNil; sv 1]))].
+Definition sample_calls : list (list arg) :=
+  [[]] ++ map (fun a => [a]) sample_forms ++ map (fun a => [ANotation; a]) sample_forms ++ map (fun a => [a; ANotation]) sample_forms
+  ++ flat_map (fun a => map (fun b => [a; b]) sample_forms) sample_forms.
+Definition out_fobj_eqb (a : out fobj) (b : out fres) : bool :=
+  match a, b with
+  | Ret (FO (FObj x)), Ret (FObj y) => obj_eqb x y
+  | Ret (FO (FAssoc k v)), Ret (FAssoc k' v') => val_eqb k k' && val_eqb v v'
+  | Panic, Panic => true
+  | Hang, Hang => true
+  | _, _ => false
+  end.
+Definition sample_agree (k : fkind) (tk tv : ety) : bool :=
+  forallb (fun args => out_fobj_eqb (run_ctor (gen_of k) tk tv args) (facade k tk tv args)) sample_calls.
+
+Lemma gen_remaining_agree_on_samples_partial :
+  forallb (fun k => sample_agree k TInt64 TInt64 && sample_agree k TAny TAny) [FArray; FCatalog; FList; FMap; FSet] = true.
+Proof. vm_compute. reflexivity. Qed.
+
+(* every case type of the regenerated type switches is one the interpreter gives a meaning to *)
+Lemma gen_case_types_known : forallb known_case_type (flat_map (fun g => case_types 10 (g_body g)) gen_ctors) = true.
+Proof. vm_compute. reflexivity. Qed.
+
+(* no statement or expression of the regenerated constructors is outside the language *)
+Fixpoint has_unknown (fuel : nat) (ss : list mstmt) : bool :=
+  match fuel with
+  | O => true
+  | S f => existsb (fun s => match s with
+                             | SUnknown _ => true
+                             | SIf _ a b => has_unknown f a || has_unknown f b
+                             | SSwitch cases d => existsb (fun cb => has_unknown f (snd cb)) cases || match d with Some b => has_unknown f b | None => false end
+                             | STypeSwitch cases d => existsb (fun cb => has_unknown f (snd cb)) cases || match d with Some b => has_unknown f b | None => false end
+                             | SArgLoop b | SIterLoop _ b | SRange _ _ b => has_unknown f b
+                             | _ => false
+                             end) ss
+  end.
+Lemma gen_no_unknown_statement : existsb (fun g => has_unknown 10 (g_body g)) gen_ctors = false.
+Proof. vm_compute. reflexivity. Qed.
+
+Print Assumptions gen_Association_is_the_model.
+Print Assumptions gen_Stack_is_the_model.
+Print Assumptions gen_Queue_is_the_model.
+Print Assumptions C20_gen_association_key_value.
+Print Assumptions C20_gen_notation_is_transparent.
+Print Assumptions C20_gen_size_or_capacity.
+Print Assumptions C20_gen_source_is_the_class_constructor_on_the_parsed_items.
+Print Assumptions gen_remaining_agree_on_samples_partial.
+Print Assumptions gen_case_types_known.
